@@ -44,6 +44,8 @@ def check(case):
         cls.append("nt:non-default-version-locktime")
     if len(sc) >= 253:
         cls.append("nt:scriptcode>=253")
+    if any(len(i["script"]) >= 253 for i in rtx["ins"]):
+        cls.append("nt:an-input-scriptsig>=253")
     f = Fails()
     txins = [txref.ser_in(i) for i in rtx["ins"]]
     txouts = [txref.ser_out(o) for o in rtx["outs"]]
@@ -112,7 +114,9 @@ def cases(draw, sign=False):
         {
             "txid": draw(st.binary(min_size=32, max_size=32)).hex(),
             "vout": draw(gen_tx.u32()),
-            "script": draw(st.binary(max_size=30)).hex(),
+            # scriptSigs of the inputs as they are in a partly signed transaction: empty, a nested-segwit push, or a whole legacy
+            # (P2SH multisig) scriptSig of 253 bytes and more, whose length takes the 3-byte form
+            "script": draw(st.binary(max_size=30)).hex() if draw(st.integers(0, 4)) else f"R{draw(st.sampled_from([76, 107, 252, 253, 254, 255, 300, 520]))}:{draw(st.binary(min_size=1, max_size=3)).hex()}",
             "sequence": draw(st.one_of(st.sampled_from(gen_tx.SEQS), st.integers(0, 0xFFFFFFFF))),
             "witness": [],
         }
@@ -201,7 +205,7 @@ def _send_tx_target():
 def targets(tier):
     req = [f"nt:{FLAGNAME[fl]}/{w}" for fl in (3, 0x83) for w in ("idx<out", "idx>=out")] + ["flag:" + n for n in FLAGNAME.values()]
     return [
-        Target("preimage", check, strategy=lambda tier: cases(), budget={"quick": 8000, "thorough": 250000}, required=req + ["nt:scriptcode>=253", "nt:index>0", "nt:after-related-tx"]),
+        Target("preimage", check, strategy=lambda tier: cases(), budget={"quick": 8000, "thorough": 250000}, required=req + ["nt:scriptcode>=253", "nt:index>0", "nt:after-related-tx", "nt:an-input-scriptsig>=253"]),
         Target("signed", check, strategy=lambda tier: cases(sign=True), budget={"quick": 96, "thorough": 2000}, required=["nt:signed"]),
         Target("fixed-corpus", check, enumerate_=enum_corpus, shards=1),
         _send_tx_target(),
